@@ -14,11 +14,20 @@
 //   C07: the UNIQUE probe reads these entries; an entry that stays live for a value no row holds
 //   makes it reject valid rows.  C03: the mark of a rolled-back deleter does not count.
 //@trusted [env] Btree::{search_tuple, get_tuple_at_unchecked, insert, update, upsert, remove_tuple} at the contracts read off their bodies (insert fails on an existing key, update fails on a missing key, both find the entry by the key of the tuple they are given; units btsearch/btleftmost cover the search itself); TupleBuilder::build stamps the writer as creator and no deleter (Kani unit tuplelayout); Tuple::delete KEEPS an existing mark (Kani unit tuplelayout: tuple_delete), Tuple::clear_delete_mark removes it; Snapshot::is_transaction_aborted is membership in the aborted set
-//@trusted [sub] `index_btree.with_cell_at(pos, |bytes| { parse_for_snapshot(bytes, &snapshot).ok()??; Tuple::from_slice_unchecked(bytes).ok()? ... })` (a closure with `?` on Option inside a generic callback) becomes the env call `index_btree.visible_tuple_at(pos, &tuple_reader, &snapshot)`: the stored tuple if the snapshot may see it, else None (the visibility rule itself: units visibility / versionchain); the writer's own transaction is not in its snapshot's aborted set; the second `let mut index_btree = self.ctx.build_tree_mut(index_root)` of the UPDATE arm (a second handle on the same tree) is dropped; `x.xmax().is_some_and(|d| f(d))`, where it occurs, is rewritten to the equivalent `match` (Verus has no specification for Option::is_some_and)
+//@trusted [sub] `index_btree.with_cell_at(pos, |bytes| { parse_for_snapshot(bytes, &snapshot).ok()??; Tuple::from_slice_unchecked(bytes).ok()? ... })` (a closure with `?` on Option inside a generic callback) becomes the env call `index_btree.visible_tuple_at(pos, &tuple_reader, &snapshot)`: the stored tuple if the snapshot may see it, else None (the visibility rule itself: units visibility / versionchain); the writer's own transaction is not in its snapshot's aborted set; the second `let mut index_btree = self.ctx.build_tree_mut(index_root)` of the UPDATE arm (a second handle on the same tree) is dropped; Option::{is_some_and, is_none_or} at assumed std specifications (the closure's own contract)
 //@trusted [pre] the dropped prefix of the function: tid = self.ctx.tid(), snapshot = self.ctx.snapshot() (the writer's own), index_btree is the tree of `index`; the loop over the indexes and the "is this index affected" test in front of the arms are outside (see the known finding: that test compares value indexes with column indexes)
 use vstd::prelude::*;
 
 verus! {
+
+// std specifications vstd does not carry (sound: they say what the std functions do)
+pub assume_specification<T, F: FnOnce(T) -> bool>[ Option::<T>::is_none_or ](o: Option<T>, f: F) -> (r: bool)
+    requires o matches Some(v) ==> f.requires((v,)),
+    ensures o is None ==> r, o matches Some(v) ==> f.ensures((v,), r);
+pub assume_specification<T, F: FnOnce(T) -> bool>[ Option::<T>::is_some_and ](o: Option<T>, f: F) -> (r: bool)
+    requires o matches Some(v) ==> f.requires((v,)),
+    ensures o is None ==> !r, o matches Some(v) ==> f.ensures((v,), r);
+
 
 pub struct RuntimeError { pub code: u8 }
 pub type RuntimeResult<T> = Result<T, RuntimeError>;
@@ -194,7 +203,6 @@ impl DmlExecutor {
 //@fn crates/axmos-db/src/runtime/dml.rs | impl DmlExecutor | maintain_secondary_indexes
 //@ arm /\(None, Some\(values\), None\) => \{/ => fn index_insert_arm(&self, values: &Vec<DataType>, index: &IndexHandle, index_schema: &Schema, index_root: PageId, row_id: RowId, tid: TransactionId, snapshot: &Snapshot, index_btree: &mut IndexTree) -> RuntimeResult<()>
 //@ arm-tail Ok(())
-//@ sub? /(\w+)\s*\.xmax\(\)\s*\.is_some_and\(\|(\w+)\|\s*([\w.]+\(\w+\))\)/ => (match \1.xmax() { Some(\2) => \3, None => false })
 //@ requires
 //@   tid == self.ctx.writer(),
 //@   !snapshot.aborted().contains(tid),
@@ -208,7 +216,6 @@ impl DmlExecutor {
 //@fn crates/axmos-db/src/runtime/dml.rs | impl DmlExecutor | maintain_secondary_indexes
 //@ arm /\(Some\(values\), None, None\) => \{/ => fn index_delete_arm(&self, values: &Vec<DataType>, index: &IndexHandle, index_schema: &Schema, index_root: PageId, row_id: RowId, tid: TransactionId, snapshot: &Snapshot, index_btree: &mut IndexTree) -> RuntimeResult<()>
 //@ arm-tail Ok(())
-//@ sub? /(\w+)\s*\.xmax\(\)\s*\.is_some_and\(\|(\w+)\|\s*([\w.]+\(\w+\))\)/ => (match \1.xmax() { Some(\2) => \3, None => false })
 //@ sub /index_btree\.with_cell_at\((\w+), \|bytes\| \{\s*tuple_reader\.parse_for_snapshot\(bytes, &snapshot\)\.ok\(\)\?\?;\s*let tuple = Tuple::from_slice_unchecked\(bytes\)\.ok\(\)\?;\s*Some\(tuple\)\s*\}\)/ => index_btree.visible_tuple_at(\1, &tuple_reader, &snapshot)
 //@ requires
 //@   tid == self.ctx.writer(),
@@ -222,7 +229,6 @@ impl DmlExecutor {
 //@fn crates/axmos-db/src/runtime/dml.rs | impl DmlExecutor | maintain_secondary_indexes
 //@ arm /\(Some\(old_values\), Some\(new_values\), Some\(\w+\)\) => \{/ => fn index_update_arm(&self, old_values: &Vec<DataType>, new_values: &Vec<DataType>, assignments: &Assignments, index: &IndexHandle, index_schema: &Schema, index_root: PageId, row_id: RowId, tid: TransactionId, snapshot: &Snapshot, index_btree: &mut IndexTree) -> RuntimeResult<()>
 //@ arm-tail Ok(())
-//@ sub? /(\w+)\s*\.xmax\(\)\s*\.is_some_and\(\|(\w+)\|\s*([\w.]+\(\w+\))\)/ => (match \1.xmax() { Some(\2) => \3, None => false })
 //@ sub /index_btree\.with_cell_at\((\w+), \|bytes\| \{\s*tuple_reader\.parse_for_snapshot\(bytes, &snapshot\)\.ok\(\)\?\?;\s*let tuple = Tuple::from_slice_unchecked\(bytes\)\.ok\(\)\?;\s*Some\(tuple\)\s*\}\)/ => index_btree.visible_tuple_at(\1, &tuple_reader, &snapshot)
 //@ sub? /let mut index_btree = self\.ctx\.build_tree_mut\(index_root\);/ =>
 //@ requires
